@@ -40,8 +40,13 @@ Definition seq_read (f : file) (pos len : nat) : list byte * nat :=
 Definition write_pos (f : file) (pos : nat) (app : bool) : nat :=
   if app then length f else pos.
 
+(* a zero-length write returns at once: it neither extends the file nor moves
+   the cursor (not even to the end of an O_APPEND file) *)
 Definition seq_write (f : file) (pos : nat) (app : bool) (d : list byte) : file * nat :=
-  let p := write_pos f pos app in (pwrite f p d, p + length d).
+  match d with
+  | [] => (f, pos)
+  | _ => let p := write_pos f pos app in (pwrite f p d, p + length d)
+  end.
 
 (* vectored forms, DEFINED as sequential composition of the single-buffer
    operations, member by member *)
@@ -577,6 +582,8 @@ Definition h_write (fs : fsys) (h : handle) (off : nat) (d : list byte) : fsys *
 
 Definition h_readv (fs : fsys) (h : handle) (off : nat) (caps : list nat) : res (list (list byte)) :=
   if negb (h_r h) then Rerr E_BADF else
+  (* readv(2) with a zero total length returns 0 before looking at the file *)
+  if sum_nat caps =? 0 then Rok (map (fun _ => []) caps) else
   match hk h with
   | HDir => Rerr E_IS_DIR
   | HFile i => Rok (preadv (idata (get_inode fs i)) off caps)
